@@ -334,6 +334,21 @@ def handleRawWith (pkgHex : String) (dec : Option (Bytes × Bool)) (nobz : Bool)
         let allField := if streaming && errAt.isSome then (match parseImpl impl with | some o => o.all | none => "?")
           else FileIterObs.allObs all fun i => paths.getD i []
         let model := obsOf mItems "-" errAt allField
+        -- A decoder that FAILS on a damaged stream: how many bytes it hands out before it notices depends on how it is read
+        -- (buffer sizes of `read_exact` / `read_to_end` vs. the harness' 97-byte reads: a truncated zstd stream gave the real
+        -- iterator one more complete entry than the harness' own decoding of the same bytes). `C07.files_chunked_prefix` holds
+        -- for whatever the decoder hands out, so nothing exact is predicted there (`*`); judged: the items both sides have in
+        -- common are the same items (path, length, content) — never a wrong item — and the rest is don't-care.
+        let decoderFailed := match dec with | some (_, f) => f | none => false
+        if streaming && decoderFailed then
+          let v := match parseImpl impl with
+            | none => "dontcare"
+            | some o =>
+              let k := min o.items.length mItems.length
+              let same := ((o.items.take k).zip (mItems.take k)).all fun (i, m) =>
+                i.path == pathRepr m.path && i.len == toString m.content.length && i.fnv == hex16 (fnv m.content)
+              if o.all == "runaway" then "fails:runaway" else if same then "dontcare" else "fails:content"
+          answer "*" v s!"foreign-stream-failed-{if comp == .ok 0 then "none" else "codec"}" else
         -- spec: pairing by name, judged on the implementation's observation
         let unknownAt := reach.findIdx? fun a => (designated a).isNone
         let verdict := match parseImpl impl with
